@@ -108,7 +108,23 @@ impl Prop for C01 {
             let arg = if form >= 10 { v_strategy() } else { x_strategy(if form == 9 { if wide % 8 == 1 { 600 } else { 40 } } else { 60 }) };
             (Just(form), gen::coeffs(n, emax_c), arg).prop_map(|(form, c, x)| Case { form, c: c.into_iter().map(B).collect(), x: B(x) })
         });
-        prop_oneof![4 => general, 1 => exact_class()].boxed()
+        // dynamic-degree form at EXTREME |x|: j low-order exact zeros, then 1..3 coefficients balanced so that
+        // every term c_i·x^i is moderate although x^i itself is far outside the f64 range (a Horner scheme never
+        // forms x^i; a rewrite that does - x.powi(k) - breaks here)
+        let extreme = (any::<bool>(), 2usize..=6, 1usize..=3, 180i32..=500, any::<bool>(), proptest::collection::vec(-40i32..=850, 3), any::<bool>()).prop_map(|(log, j, m, e, up, t, neg)| {
+            let e = if up { e } else { -e };
+            let x = ppv_exact::pow2_f64(e as i64) * if neg { -1.5 } else { 1.0 };
+            let mut c = vec![0.0; j];
+            for k in 0..m {
+                let i = (j + k) as i64;
+                // coefficient 2^ex within 2^±890, term c·x^i = 2^t (up to 2^850) although x^i may be far out of range
+                let ex = -(e as i64) * i + if up { t[k] as i64 } else { -(t[k] as i64) };
+                c.push(if (-890..=890).contains(&ex) { ppv_exact::pow2_f64(ex) * (1.0 + k as f64 * 0.25) } else { 0.0 });
+            }
+            let _ = log;
+            Case { form: 9, c: c.into_iter().map(B).collect(), x: B(x) }
+        });
+        prop_oneof![16 => general, 4 => exact_class(), 1 => extreme].boxed()
     }
     fn check(&self, case: &Case, ctx: &mut Ctx) -> Outcome {
         let form = case.form % 20;
